@@ -52,7 +52,9 @@ where
         buffer.push(next_byte2);
     }
 
-    let (result, _enc, errors) = UTF_16LE.decode(buffer.as_slice());
+    // The text is always UTF-16LE: do not let a leading U+FEFF / U+FFFE / EF BB BF be sniffed
+    // as a byte order mark, which would drop it or switch the decoder to UTF-16BE / UTF-8.
+    let (result, errors) = UTF_16LE.decode_without_bom_handling(buffer.as_slice());
     if errors {
         Err(EncodedStringsError::DecodingFailed("UTF-16".to_string()))
     } else {
